@@ -13,6 +13,7 @@ import (
 	"hop.computer/hop/authgrants"
 	"hop.computer/hop/certs"
 	"hop.computer/hop/core"
+	"hop.computer/hop/transport"
 )
 
 // C06 — nothing is delegated without the principal approving that exact intent.
@@ -134,6 +135,10 @@ func scPrincipal(r *Run) {
 			return nil
 		}
 		if idx >= 0 && idx < len(longReason) && longReason[idx] {
+			if idx%2 == 1 {
+				// not ASCII: at most 255 characters, but more than 255 bytes
+				return errors.New("abgelehnt: " + strings.Repeat("né", 60+r.Intn("reason", 60)))
+			}
 			return errors.New("user declined: " + strings.Repeat("no ", 100))
 		}
 		return errors.New("user declined")
@@ -148,6 +153,29 @@ func scPrincipal(r *Run) {
 	r.SetCfg("setup", setupMode)
 	r.SetCfg("decisions", fmt.Sprint(decisions))
 	targetCert := SelfSigned(newX25519().Public, certs.DNSName("target.sim"))
+	// in a third of the runs the verification callback runs where hopclient puts it: inside a REAL transport
+	// handshake with the target (VerifyConfig.AddVerifyCallback), under a drawn verification policy
+	var realNet *Net
+	var realSrv *TServer
+	realPolicy := 0
+	if r.Intn("cfg", 3) == 0 {
+		realNet = NewNet(r)
+		defer realNet.Stop()
+		realNet.Quiet = true
+		realSrv = StartServer(r, realNet, ServerOpts{HSTimeout: 3 * time.Second, Name: "target.sim"})
+		defer realSrv.Srv.Close()
+		targetCert = realSrv.Leaf
+		realPolicy = r.Intn("cfg", 3) // 0 store+name, 1 store, 2 InsecureSkipVerify
+		r.SetCfg("real-target-handshake-policy", []string{"store+name", "store", "skip-verify"}[realPolicy])
+		r.Go(func() { // (connections the target's transport accepts are not used further)
+			for {
+				if _, err := realSrv.Srv.AcceptTimeout(24 * time.Hour); err != nil {
+					return
+				}
+			}
+		})
+	}
+	nDial := 0
 	var targetWG sync.WaitGroup
 	var pipes []net.Conn
 	setUp := func(url core.URL, verify authgrants.AdditionalVerifyCallback) (net.Conn, error) {
@@ -156,7 +184,24 @@ func scPrincipal(r *Run) {
 			return nil, errors.New("dial failed: no route to target")
 		}
 		// like hopclient: the verification callback runs inside connection establishment
-		if err := verify(targetCert); err != nil {
+		if realSrv != nil {
+			nDial++
+			vc := transport.VerifyConfig{Store: realSrv.PKI.Store(), Name: realSrv.Name, AddVerifyCallback: transport.AdditionalVerifyCallback(verify)}
+			switch realPolicy {
+			case 1:
+				vc.Name = certs.Name{}
+			case 2:
+				vc = transport.VerifyConfig{InsecureSkipVerify: true, AddVerifyCallback: transport.AdditionalVerifyCallback(verify)}
+			}
+			tc := NewTClient(r, realNet, realSrv, ClientOpts{Addr: Addr(byte(40+nDial), 4400+nDial), HSTimeout: 3 * time.Second,
+				Mutate: func(cfg *transport.ClientConfig) { cfg.Verify = vc }})
+			herr := tc.C.Handshake()
+			tc.C.Close()
+			r.CountFault("verification-inside-real-handshake", 1)
+			if herr != nil {
+				return nil, fmt.Errorf("handshake aborted: %w", herr)
+			}
+		} else if err := verify(targetCert); err != nil {
 			return nil, fmt.Errorf("handshake aborted: %w", err)
 		}
 		if setupMode == 6 {
